@@ -27,14 +27,55 @@ def run(ctx):
             failures.append(rec)
         else:
             mismatches.append(rec)
+    # ---- order and multiplicity: the implementation re-run on a shuffled collection and with one value repeated ----
+    import random
+    rnd = random.Random(ctx.seed + 404)
+    pterms, pcases = [], []
+    import collections
+    b2 = ([collections.defaultdict(int, {"a": {"x": 1}}), 1], {"q": 1})      # DESIGN B-2: TypedDict below a union
+    directed = [{"k": 1, "vs": [b2], "vs_repr": repr([b2]), "error": None, "force_dup": b2}]
+    for d in directed:
+        d["impl"] = common.reify_type(infer_cases.impl_infer(d["vs"], d["k"]), ct)
+    for c in directed + cases:
+        if "force_dup" not in c and (c["error"] or len(c["vs"]) < 2 or rnd.random() > 0.35):
+            continue
+        vs = list(c["vs"])
+        sh = list(vs)
+        rnd.shuffle(sh)
+        dup = c.get("force_dup", rnd.choice(vs))
+        try:
+            t_perm = common.reify_type(infer_cases.impl_infer(sh, c["k"]), ct)
+            t_dup = common.reify_type(infer_cases.impl_infer(vs + [dup], c["k"]), ct)
+        except Exception as e:
+            failures.append({"what": f"inference raised on a permuted / duplicated collection: {type(e).__name__}: {e}; k={c['k']} values={c['vs_repr'][:200]}"})
+            continue
+        vterms = common.coq_list(common.reify_value(v, ct) for v in vs)
+        pterms.append(f"PCase {c['k']} {vterms} ({c['impl']}) ({t_perm}) {common.reify_value(dup, ct)} ({t_dup})")
+        pcases.append({"k": c["k"], "values": c["vs_repr"], "shuffled": repr(sh)[:300], "repeated": repr(dup)[:200],
+                       "impl": c["impl"], "impl_perm": t_perm, "impl_dup": t_dup})
+    header = infer_cases.HEADER % ct.hierarchy()        # the class table may have grown
+    pouts = common.run_coq_shards(ctx.work, "c04p", header, pterms, "pcase", "bad verdict_c04_order 0 cases")
+    for i, code in common.parse_bad(pouts):
+        c = dict(pcases[i])
+        if code == 5:
+            c["finding"] = "kf_td_under_union"
+            c["what"] = (f"seeing a value twice changes the merged type (its type has a TypedDict below a union): k={c['k']} "
+                         f"values={c['values'][:160]} repeated={c['repeated'][:120]}")
+        elif code == 2:
+            c["what"] = f"the merged type depends on the order / multiplicity of the values: k={c['k']} values={c['values'][:200]}"
+        else:
+            c["what"] = f"malformed order case (code {code})"
+        failures.append(c)
     distinct = len({common.digest(c["term"]) for c in cases if c["nontrivial"]})
+    dist = infer_cases.distribution(cases)
+    dist["order_multiplicity_cases"] = len(pterms)
     return {
-        "evaluations": len(cases), "distinct_nontrivial": distinct,
+        "evaluations": len(cases) + len(pterms), "distinct_nontrivial": distinct,
         "rule": "exhaustive multisets (size<=3) over a 12-value alphabet x k in {0,1,2}, plus seeded random "
                 "value collections (depth<=3, near-duplicates injected) x k in {0,1,2,3,10,200}; "
                 "non-trivial = >=2 values with at least one container; distinct by hash of the reified case",
         "samples": [{"k": c["k"], "values": c["vs_repr"], "impl_type": c["impl"]} for c in cases[-3:]],
-        "distribution": infer_cases.distribution(cases),
+        "distribution": dist,
         "failures": failures, "mismatches": mismatches, "relation": "corrb (infer k vs) impl",
     }
 
@@ -43,12 +84,19 @@ def replay(ctx, payload):
     print(payload)
     return 0
 
-CLAIM = {'note': "Trusted: Coq kernel + vm_compute; harness reifiers; typing's Union/==/hash semantics as modelled "
-         '(union_mk, py_eqb). Totality and order/multiplicity invariance are checked by correspondence only '
-         'so far.',
- 'ref': '4/C04',
- 'technique': 'Coq proof by nested induction over values/types + vm_compute differential correspondence',
- 'text': 'Coq theorem infer_sound: for every hierarchy, every limit k and every finite collection of values, '
-         'each observed value is a member of the inferred type (both readings of Any); plus '
-         'infer_well_formed. The model (Model/Infer.v) is tied to typing.py by a differential check whose '
-         'verdicts (membership + multiset correspondence) are computed inside Coq.'}
+CLAIM = {
+    "text": "Coq theorems for every class table, every TypedDict limit k and every finite collection of well-formed values: "
+            "infer_total (inference always yields a type: the merge never runs out of fuel and make_typed_dict's assert never "
+            "fires: merge_never_asserts), infer_sound / infer_sound_annotation (every observed value is a member of the inferred "
+            "type under both readings of Any), infer_well_formed, merge_order_invariant / infer_order_invariant (any permutation of "
+            "the inputs gives an equivalent type - union members as sets - admitting the same values; TypedDicts anywhere), "
+            "infer_multiplicity_invariant (repeating a value changes nothing unless its type has a TypedDict below a union; that "
+            "class is refuted in Refuted/C04.v), infer0_depends_on_set_only, py_eq_characterised. Tie: differential check on "
+            "~5k value collections with membership and multiset correspondence computed in Coq, plus the implementation re-run on "
+            "shuffled and duplicated collections compared with equivb in Coq.",
+    "note": "Trusted: Coq kernel + vm_compute; harness reifiers; typing's Union/==/hash semantics as modelled (union_mk, py_eqb). "
+            "Finding kf_td_under_union recorded.",
+    "technique": "Coq proof by nested induction over values/types and induction on the merge fuel + vm_compute differential "
+                 "correspondence",
+    "ref": "4/C04",
+}
